@@ -3,7 +3,7 @@
 # Steps (all on scratch copies of /repo): patch applies; library suite passes with it; demo fails with it; demo passes without it;
 # then the property's quick check is run against it (CAUGHT/MISSED).
 export GOFLAGS=-mod=mod GOPROXY=off GOSUMDB=off GOTOOLCHAIN=local
-prop="$1"; src="$2"; name="$(basename "$src")"; id="$prop-$name"
+prop="$1"; src="$2"; name="$(basename "$src")"; id="$prop-${HV_TAG:-}$name"
 out=/verif/seeded/$id
 T=$(mktemp -d /tmp/hv.XXXXXX); trap 'rm -rf "$T"' EXIT
 rsync -a --exclude .git /repo/ "$T/clean/"; rsync -a --exclude .git /repo/ "$T/mut/"
